@@ -316,6 +316,9 @@ func genCase(t *rapid.T) Case {
 	if drawCLI(t) { // a small share of the cases runs against the real CLI process (clicase_test.go)
 		return genCLICase(t)
 	}
+	if drawConc(t) { // and a small share are concurrent-upload histories (conc_test.go)
+		return genConcCase(t)
+	}
 	var c Case
 	c.Server = rapid.SampledFrom([]string{"chunk", "chunk", "chunk", "index", "index"}).Draw(t, "server")
 	c.Via = rapid.SampledFrom([]string{"direct", "direct", "server"}).Draw(t, "via")
